@@ -27,8 +27,14 @@ func init() {
 				}
 			}
 		},
-		Total: func(c *Ctx) int64 { return int64(len(c05Seeds)) * c05Families },
-		Run:   c05Case,
+		Total: func(c *Ctx) int64 { return int64(len(c05Seeds))*c05Families + numHugeCases(c) },
+		Run: func(c *Ctx, i int64) {
+			if t := int64(len(c05Seeds)) * c05Families; i >= t {
+				c05HugeCase(c, i-t)
+				return
+			}
+			c05Case(c, i)
+		},
 	})
 }
 
